@@ -68,5 +68,16 @@ func zzC20_writer() {
 		symCover("wanted")
 		symAssert(err == nil, "writer accepts a response that was not suppressed")
 		symAssert(uint16(w.Message().Code()) == code, "accepted response carries the code")
+		// the handler tries another code afterwards: a refusal changes nothing of the response already accepted
+		code2 := symU16("code2")
+		symAssume(code2 <= 255)
+		err2 := w.SetResponse(codes.Code(code2), message.TextPlain, nil)
+		if present && zzC20w_rfc(code2, v) {
+			symCover("second-refused")
+			symAssert(err2 != nil, "a later response of a suppressed class is refused")
+			symAssert(uint16(w.Message().Code()) == code && w.Message().IsModified(), "and the response accepted before stays as it was: it will still be sent")
+		} else {
+			symAssert(err2 == nil && uint16(w.Message().Code()) == code2, "a later response of a class that is wanted replaces the earlier one")
+		}
 	}
 }
